@@ -37,3 +37,7 @@ def handle (args : List Sexp) : Sexp :=
   | _ => .list [.atom "err", .atom "bad-request"]
 
 end GenjaxVerif.SelD
+
+namespace GenjaxVerif.SelD
+def commands : List (String × (List Sexp → Sexp)) := [("sel", handle)]
+end GenjaxVerif.SelD
